@@ -582,7 +582,7 @@ val callee_is_expr : node -> bool
 val op_visit :
   config -> nat -> bool -> node -> ostate -> (node * ostate) option
 
-val is_use_strict : node -> bool
+val can_precede_directive : node -> bool
 
 val insertion_index : node list -> nat
 
